@@ -74,6 +74,29 @@ func convCompFuncV1ToV2(cf *ugo.CompiledFunction, opWidth []int) error {
 		return nil
 	}
 
+	// Jump operands are widened, so every instruction after a jump moves:
+	// map the old instruction positions to the new ones to relocate jump
+	// targets.
+	newPos := make(map[int]int)
+	for i, n := 0, 0; ; {
+		newPos[i] = n
+		if i >= len(cf.Instructions) {
+			break
+		}
+		op := cf.Instructions[i]
+		w := opWidth[op]
+		nw := w
+		switch op {
+		case opv1.OpJump, opv1.OpJumpFalsy, opv1.OpAndJump, opv1.OpOrJump, opv1.OpSetupTry:
+			nw = 0
+			for _, v := range ugo.OpcodeOperands[op] {
+				nw += v
+			}
+		}
+		i += 1 + w
+		n += 1 + nw
+	}
+
 	var newInsts []byte
 	newSrcMap := make(map[int]int, len(cf.SourceMap))
 	operands := make([]int, 0, 4)
@@ -96,6 +119,13 @@ func convCompFuncV1ToV2(cf *ugo.CompiledFunction, opWidth []int) error {
 				cf.Instructions[i+1:],
 				operands[:0],
 			)
+
+			for j, target := range operands {
+				// a target that does not address an instruction is left as it is
+				if pos, ok := newPos[target]; ok {
+					operands[j] = pos
+				}
+			}
 
 			var err error
 			instBuf, err = ugo.MakeInstruction(instBuf[:0], op, operands...)
